@@ -1,7 +1,7 @@
 """C09 — buying power and reserved cash.  Step-sync of reserve / release operations (PENDING_NEW, fills, unsolicited updates,
 cancellations) of both account types and of the cash validator against the Lean model; monitors: reserved = sum of unfilled shares
 of open reserves, non-negativity, acceptance => covered, non-negative balance after opening fills."""
-import tstream, monitors, sync_misc
+import tstream, monitors, sync_misc, minute_stream
 LEVEL = "proof"
 RULE = ("daily runs with several concurrent orders per bar sharing volume caps, partial fills then cancels, rejects inside the matcher, expiry at the close, "
         "exact-fit orders (order_value(cash)), both account types; non-trivial = operation changing the reserve; distinct = by (operation, branch)")
@@ -14,6 +14,8 @@ def run(ctx):
     corrs = tstream.make_corrs(ctx, ops=["apply_trade", "_on_order_pending_new", "_on_order_unsolicited_update"])
     vc = {"cash": ctx.corr("CashValidator", "every recorded decision of the real cash validator vs model `cashVeto` on the same order, cost and cash")}
     tstream.stream(ctx, ctx.n(60, 3000), corrs, [monitors.c09_monitor], extra_sync=lambda c, tr, ix: sync_misc.validators_sync(c, vc, tr, ix))
+    # minute frequency (current_bar / next_bar matching): reserve monitor only
+    minute_stream.stream(ctx, ctx.n(3, 100), [monitors.c09_monitor])
 
 
 def replay(ctx, data):
